@@ -435,7 +435,7 @@ def main_check(prop, tier, seed, repo, replay=None, jobs=None):
             if tot["anchors"].get(a, {}).get("calls", 0) < need:
                 inconclusive.append("anchor %s observed %d calls (< %d)" % (a, tot["anchors"].get(a, {}).get("calls", 0), need))
     wall = time.time() - t0
-    if not replay:
+    if not replay and not os.environ.get("VERIF_NO_EVIDENCE"):
         write_evidence(prop, tier, seed, mod, plan, tot, wall, inconclusive, scratch_repo=(os.path.abspath(repo) != "/repo"))
     for key, n in sorted(tot["known"].items()):
         open_f = load_known_findings(prop)
